@@ -42,8 +42,8 @@ KeySet ==
     [] KeySetName = "list"  -> {<<97>>, <<97, 47, 49>>, <<97, 45, 98>>, <<98>>} \* a, a/1, a-b, b
 
 Cfg ==
-  CASE CfgName = "mem"      -> [DefaultCfg EXCEPT !.suspDelete = "drop", !.suspNone = "None", !.oldNull = "keep"]
-    [] CfgName = "memauto"  -> [DefaultCfg EXCEPT !.auto = TRUE, !.suspDelete = "drop", !.suspNone = "None", !.oldNull = "keep"]
+  CASE CfgName = "mem"      -> [DefaultCfg EXCEPT !.suspDelete = "code", !.suspNone = "None", !.oldNull = "keep"]
+    [] CfgName = "memauto"  -> [DefaultCfg EXCEPT !.auto = TRUE, !.suspDelete = "code", !.suspNone = "None", !.oldNull = "keep"]
     [] CfgName = "plain"    -> [DefaultCfg EXCEPT !.versioned = FALSE, !.paginate = FALSE]
     [] CfgName = "plainauto" -> [DefaultCfg EXCEPT !.versioned = FALSE, !.paginate = FALSE, !.auto = TRUE]
     [] CfgName = "single"   -> [DefaultCfg EXCEPT !.versioned = FALSE, !.paginate = FALSE, !.single = "bkt1"]
